@@ -258,9 +258,11 @@ func truncateString(s string, maxLen int, pos int) string {
 	return "..." + s[nextCharBoundary(s, start):nextCharBoundary(s, end)] + "..."
 }
 
-// nextCharBoundary returns the first index >= i at which a character starts (or len(s))
+// nextCharBoundary returns the first index >= i at which a character starts (or len(s)).
+// A character has at most three inner bytes: on text that is not valid UTF-8 the cut is
+// moved by no more than that, so the length bound of the excerpt holds for any bytes.
 func nextCharBoundary(s string, i int) int {
-	for i < len(s) && isContinuationByte(s[i]) {
+	for moved := 0; moved < 3 && i < len(s) && isContinuationByte(s[i]); moved++ {
 		i++
 	}
 	return i
